@@ -21,13 +21,16 @@ partial def runLines (h : IO.FS.Stream) (check : String → Except String Unit) 
   IO.println s!"checked {n} diffs {bad}"
   return (if bad == 0 then 0 else 1)
 
-/-- stateful transcript loop for `seqdrv` transcripts; stops at the first difference (the model
-    state is no longer meaningful after one). -/
-partial def runSeq (h : IO.FS.Stream) (cfg : Tree.Cfg) : IO UInt32 := do
+/-- stateful transcript loop for `seqdrv` transcripts. `focus` = the difference classes that
+    count (empty = all). A difference outside the focus is only counted. After a dump mismatch
+    inside the focus the model state is no longer meaningful: stop. -/
+partial def runSeq (h : IO.FS.Stream) (cfg : Tree.Cfg) (focus : List String) : IO UInt32 := do
   let mut st : SeqCheck.St := { cands := [{ cfg := cfg }] }
   let mut n := 0
   let mut lastOp := ""
   let mut opNo := 0
+  let mut bad := 0
+  let mut ignored := 0
   repeat
     let line ← h.getLine
     if line.isEmpty then break
@@ -37,26 +40,31 @@ partial def runSeq (h : IO.FS.Stream) (cfg : Tree.Cfg) : IO UInt32 := do
     if l.startsWith "> " then
       lastOp := l
       opNo := opNo + 1
-    let (st', err) := SeqCheck.stepLine st l
+    let (st', errs) := SeqCheck.stepLine st l
     st := st'
-    match err with
-    | none => pure ()
-    | some e =>
-      IO.println s!"DIFF line {n} op {opNo}: {lastOp} :: {e}"
-      IO.println s!"checked {n} diffs 1"
-      return 1
-  IO.println ("STATS " ++ String.intercalate " " (st.stats.map (fun (k, v) => s!"{k}={v}")))
-  IO.println s!"checked {n} diffs 0"
-  return 0
+    for (c, e) in errs do
+      if focus.isEmpty || focus.contains c || c == "misc" then
+        bad := bad + 1
+        if bad ≤ 5 then IO.println s!"DIFF class {c} line {n} op {opNo}: {lastOp} :: {e}"
+      else
+        ignored := ignored + 1
+    if bad > 0 then break
+  IO.println ("STATS " ++ String.intercalate " " (st.stats.map (fun (k, v) => s!"{k}={v}")) ++ s!" ignored_diffs={ignored}")
+  IO.println s!"checked {n} diffs {bad}"
+  return (if bad == 0 then 0 else 1)
+
+def cfgOf : String → Tree.Cfg
+  | "d2" => { fixD2 := false }
+  | "d5" => { fixD5 := false }
+  | "d2d5" => { fixD2 := false, fixD5 := false }
+  | _ => {}
 
 def main (args : List String) : IO UInt32 := do
   let stdin ← IO.getStdin
   match args with
   | ["unit"] => runLines stdin UnitCheck.checkLine
-  | ["seq"] => runSeq stdin {}
-  | ["seq", "d2"] => runSeq stdin { fixD2 := false }
-  | ["seq", "d5"] => runSeq stdin { fixD5 := false }
-  | ["seq", "d2d5"] => runSeq stdin { fixD2 := false, fixD5 := false }
+  | "seq" :: c :: focus => runSeq stdin (cfgOf c) focus
+  | ["seq"] => runSeq stdin {} []
   | _ => do
-    IO.eprintln "usage: yakmodel unit|seq [d2|d5|d2d5] < transcript"
+    IO.eprintln "usage: yakmodel unit | seq [fixed|d2|d5|d2d5] [focus classes…] < transcript"
     return 2
